@@ -152,6 +152,65 @@ private theorem buildDirective_err (env : Env) (d : DirDef) (e : Err) (h : build
   · exact mapM_err _ (buildArgument_err env) _ e h1
   · simp [pure, Except.pure] at h2
 
+private theorem defaultValueX_err (env envX : Env) (hide : Option String) (l : Lit) (t : Ty) (e : Err) (h : defaultValueX env envX hide l t = .error e) : Good e := by
+  unfold defaultValueX at h
+  split at h
+  · exact defaultValue_err env l t e h
+  · split at h
+    · simp at h
+    · cases h; rename_i c hc; exact defaultValue_err envX l t _ hc
+    · exact defaultValue_err env l t e h
+
+private theorem buildArgumentX_err (env envX : Env) (hide : Option String) (a : InputValDef) (e : Err) (h : buildArgumentX env envX hide a = .error e) : Good e := by
+  unfold buildArgumentX at h
+  rcases bind_err _ _ _ h with h1 | ⟨_, _, h2⟩
+  · exact checkRef_err env _ e h1
+  · split at h2
+    · simp [pure, Except.pure] at h2
+    · rcases bind_err _ _ _ h2 with h3 | ⟨_, _, h4⟩
+      · exact defaultValueX_err env envX hide _ _ e h3
+      · simp [pure, Except.pure] at h4
+
+private theorem buildFieldX_err (env envX : Env) (hide : Option String) (f : FieldDef) (e : Err) (h : buildFieldX env envX hide f = .error e) : Good e := by
+  unfold buildFieldX at h
+  rcases bind_err _ _ _ h with h1 | ⟨_, _, h2⟩
+  · exact checkRef_err env _ e h1
+  · rcases bind_err _ _ _ h2 with h3 | ⟨_, _, h4⟩
+    · exact mapM_err _ (buildArgumentX_err env envX hide) _ e h3
+    · rcases bind_err _ _ _ h4 with h5 | ⟨_, _, h6⟩
+      · exact deprecationReason_err _ e h5
+      · simp [pure, Except.pure] at h6
+
+private theorem buildTypeDefX_err (env envX : Env) (hide : Option String) (d : TypeDef) (e : Err) (h : buildTypeDefX env envX hide d = .error e) : Good e := by
+  unfold buildTypeDefX at h
+  split at h
+  · simp [pure, Except.pure] at h
+  · rcases bind_err _ _ _ h with h1 | ⟨_, _, h2⟩
+    · exact mapM_err _ (buildFieldX_err env envX hide) _ e h1
+    · rcases bind_err _ _ _ h2 with h3 | ⟨_, _, h4⟩
+      · exact checkNames_err env _ e h3
+      · simp [pure, Except.pure] at h4
+  · rcases bind_err _ _ _ h with h1 | ⟨_, _, h2⟩
+    · exact mapM_err _ (buildFieldX_err env envX hide) _ e h1
+    · simp [pure, Except.pure] at h2
+  · rcases bind_err _ _ _ h with h1 | ⟨_, _, h2⟩
+    · exact checkNames_err env _ e h1
+    · simp [pure, Except.pure] at h2
+  · rcases bind_err _ _ _ h with h1 | ⟨_, _, h2⟩
+    · rw [failIf_err _ _ _ h1]; exact good_lib _
+    · rcases bind_err _ _ _ h2 with h3 | ⟨_, _, h4⟩
+      · exact mapM_err _ buildEnumValue_err _ e h3
+      · simp [pure, Except.pure] at h4
+  · rcases bind_err _ _ _ h with h1 | ⟨_, _, h2⟩
+    · exact mapM_err _ (buildArgumentX_err env envX hide) _ e h1
+    · simp [pure, Except.pure] at h2
+
+private theorem buildDirectiveX_err (env envX : Env) (d : DirDef) (e : Err) (h : buildDirectiveX env envX d = .error e) : Good e := by
+  unfold buildDirectiveX at h
+  rcases bind_err _ _ _ h with h1 | ⟨_, _, h2⟩
+  · exact mapM_err _ (buildArgumentX_err env envX none) _ e h1
+  · simp [pure, Except.pure] at h2
+
 private theorem addOps_err (res : String → Bool) (l : LibErr) : ∀ (ops : List (String × String)) (r : Roots) (e : Err),
     addOps res (.lib l) r ops = .error e → Good e := by
   intro ops
@@ -208,20 +267,20 @@ private theorem namesStep_err (env : Env) (sel : TypeDef → List String) (acc :
   · exact checkNames_err env _ e h1
   · exact appendNew_good _ id _ _ e h2
 
-private theorem extendType_err (env : Env) (exts : List TypeDef) (t : TypeD) (e : Err) (h : extendType env exts t = .error e) : Good e := by
-  unfold extendType at h
+private theorem extendTypeX_err (env envX : Env) (hide : Option String) (exts : List TypeDef) (t : TypeD) (e : Err) (h : extendTypeX env envX hide exts t = .error e) : Good e := by
+  unfold extendTypeX at h
   simp only [] at h
   rcases bind_err _ _ _ h with h1 | ⟨_, _, h2⟩
   · rw [failIf_err _ _ _ h1]; exact good_lib _
   · split at h2
     · simp [pure, Except.pure] at h2
     · rcases bind_err _ _ _ h2 with h3 | ⟨_, _, h4⟩
-      · exact foldlM_err _ (fun acc x e h => mergeStep_err (buildField env) (buildField_err env) (·.name) (·.fields) acc x e h) _ _ e h3
+      · exact foldlM_err _ (fun acc x e h => mergeStep_err (buildFieldX env envX hide) (buildFieldX_err env envX hide) (·.name) (·.fields) acc x e h) _ _ e h3
       · rcases bind_err _ _ _ h4 with h5 | ⟨_, _, h6⟩
         · exact foldlM_err _ (fun acc x e h => namesStep_err env (·.interfaces) acc x e h) _ _ e h5
         · simp [pure, Except.pure] at h6
     · rcases bind_err _ _ _ h2 with h3 | ⟨_, _, h4⟩
-      · exact foldlM_err _ (fun acc x e h => mergeStep_err (buildField env) (buildField_err env) (·.name) (·.fields) acc x e h) _ _ e h3
+      · exact foldlM_err _ (fun acc x e h => mergeStep_err (buildFieldX env envX hide) (buildFieldX_err env envX hide) (·.name) (·.fields) acc x e h) _ _ e h3
       · simp [pure, Except.pure] at h4
     · rcases bind_err _ _ _ h2 with h3 | ⟨_, _, h4⟩
       · exact foldlM_err _ (fun acc x e h => namesStep_err env (·.members) acc x e h) _ _ e h3
@@ -230,8 +289,21 @@ private theorem extendType_err (env : Env) (exts : List TypeDef) (t : TypeD) (e 
       · exact foldlM_err _ (fun acc x e h => mergeStep_err buildEnumValue buildEnumValue_err (·.name) (·.values) acc x e h) _ _ e h3
       · simp [pure, Except.pure] at h4
     · rcases bind_err _ _ _ h2 with h3 | ⟨_, _, h4⟩
-      · exact foldlM_err _ (fun acc x e h => mergeStep_err (buildArgument env) (buildArgument_err env) (·.name) (·.inputFields) acc x e h) _ _ e h3
+      · exact foldlM_err _ (fun acc x e h => mergeStep_err (buildArgumentX env envX hide) (buildArgumentX_err env envX hide) (·.name) (·.inputFields) acc x e h) _ _ e h3
       · simp [pure, Except.pure] at h4
+
+private theorem reDefault_err (env envX : Env) (hide : Option String) (X : List TypeDef) (t : TypeD) (e : Err) (h : reDefault env envX hide X t = .error e) : Good e := by
+  unfold reDefault at h
+  split at h
+  · exact buildTypeDefX_err env envX hide _ e h
+  · simp [pure, Except.pure] at h
+
+private theorem reDefaultDirective_err (env envX : Env) (doc : Doc) (d : DirectiveD) (e : Err)
+    (h : reDefaultDirective env envX doc d = .error e) : Good e := by
+  unfold reDefaultDirective at h
+  split at h
+  · exact buildDirectiveX_err env envX _ e h
+  · simp [pure, Except.pure] at h
 
 private theorem extendSchema_err (env : Env) (live : Live) (doc : Doc) (add : List TypeD) (e : Err) (h : extendSchema env live doc add = .error e) : Good e := by
   unfold extendSchema at h
@@ -241,12 +313,16 @@ private theorem extendSchema_err (env : Env) (live : Live) (doc : Doc) (add : Li
   · rcases bind_err _ _ _ h with h0 | ⟨_, _, h'⟩
     · rw [failIf_err _ _ _ h0]; exact good_lib _
     · rcases bind_err _ _ _ h' with h1 | ⟨_, _, h2⟩
-      · exact mapM_err _ (extendType_err env _) _ e h1
-      · rcases bind_err _ _ _ h2 with h3 | ⟨_, _, h4⟩
-        · rw [failIf_err _ _ _ h3]; exact good_lib _
-        · rcases bind_err _ _ _ h4 with h5 | ⟨_, _, h6⟩
-          · exact foldlM_err _ (fun acc x e h => addOps_err _ _ _ _ e h) _ _ e h5
-          · simp [pure, Except.pure] at h6
+      · exact mapM_err _ (fun t e h => extendTypeX_err env _ _ _ t e h) _ e h1
+      · rcases bind_err _ _ _ h2 with h1' | ⟨_, _, h2'⟩
+        · exact mapM_err _ (fun t e h => reDefault_err env _ _ _ t e h) _ e h1'
+        · rcases bind_err _ _ _ h2' with h1'' | ⟨_, _, h2''⟩
+          · exact mapM_err _ (reDefaultDirective_err env _ _) _ e h1''
+          · rcases bind_err _ _ _ h2'' with h3 | ⟨_, _, h4⟩
+            · rw [failIf_err _ _ _ h3]; exact good_lib _
+            · rcases bind_err _ _ _ h4 with h5 | ⟨_, _, h6⟩
+              · exact foldlM_err _ (fun acc x e h => addOps_err _ _ _ _ e h) _ _ e h5
+              · simp [pure, Except.pure] at h6
 
 /-- **build_rejects**: whatever the document, the flags and the supplied types, if the builder does not return a
     schema it fails with `SDLError`, `ExtensionError` or `SchemaError` — or with the `RecursionError` of finding
